@@ -66,6 +66,12 @@ func (c13) Gen(r *world.Rng, tier string, n int) interface{} {
 	sc := &C13Sc{IOSeed: r.U64()}
 	sc.Prog = []string{"jr", "djnz", "ldir", "io", "xy", "edxy", "inc", "sled", "ring", "fwdio", "pfx", "selfmod", "structured", "structured", "structured", "structured", "structured"}[r.Intn(17)]
 	sc.R0 = r.Byte()
+	if sc.Prog == "jr" && sc.R0%4 == 1 {
+		// a loop that rewrites the refresh counter every time round (no extra draw: the other scenarios of
+		// the stream stay what they were): whatever Run derives from R must not decide whether it looks
+		// at the context
+		sc.Prog = "ldr"
+	}
 	if sc.Prog == "structured" {
 		mode := r.Intn(3)
 		p := gen.Structured(r, gen.Opts{IO: true, Blocks: r.Range(3, 16), MaxSubs: 3, EI: true, StartEI: r.Chance(3, 4)})
@@ -260,6 +266,9 @@ func c13Segs(sc *C13Sc) (world.Regs, []world.Seg) {
 	switch sc.Prog {
 	case "jr":
 		segs = []world.Seg{world.MkSeg(0x0100, []uint8{0x18, 0xfe})}
+	case "ldr":
+		// LD A,n ; LD R,A ; JP 0100 - R only ever takes the values n, n+1, n+2 (7 bits) at Step boundaries
+		segs = []world.Seg{world.MkSeg(0x0100, []uint8{0x3e, sc.R0, 0xed, 0x4f, 0xc3, 0x00, 0x01})}
 	case "djnz":
 		// outer: LD B,3 ; inner: DJNZ inner ; INC HL ; JP outer
 		segs = []world.Seg{world.MkSeg(0x0100, []uint8{0x06, 0x03, 0x10, 0xfe, 0x23, 0xc3, 0x00, 0x01})}
